@@ -2,6 +2,7 @@
 import z3
 from pyvc.harness import harness
 from pyvc.models import SFile, SBytes, SymStr, fresh_str
+from pyvc.interp import ProgExc
 from pyvc.interp import Obj
 from pyvc import sym
 from pyvc.sym import _lift
@@ -325,3 +326,49 @@ def _next_entry_start(f, cur, k, st):
     if i < len(f.reads):
         return f.reads[i][0]
     return None
+
+
+# ---------------------------------------------------------------------------- SegmentIndexCache with earlier entries
+
+SIC_VARIANTS = [("cached=%d,new=%d" % (a, b), (a, b)) for a in (1, 2, 3) for b in (1, 2, 3)]
+
+
+@harness("segment_index_cache", ["tdms_segment.SegmentIndexCache.get_index", "tdms_segment.ObjectListKey.__init__",
+                                 "tdms_segment.ObjectListKey.__eq__", "tdms_segment.ObjectListKey.__hash__"],
+         ["C02", "C04", "C05"], variants=SIC_VARIANTS, level="shape-bounded",
+         bound="an earlier object list of <= 3 objects is already cached, the new list has <= 3 objects; all paths "
+               "symbolic (every equality pattern between the two lists, including permutations)")
+def _segment_index_cache(vc):
+    from pyvc.models import fresh_str
+    na, nb = vc.variant
+    it = vc.interp
+    olds = [fresh_str(vc.st, "a%d" % i) for i in range(na)]
+    news = [fresh_str(vc.st, "b%d" % i) for i in range(nb)]
+    for lst in (olds, news):                       # paths within one object list are distinct (Segment.wf)
+        for i in range(len(lst)):
+            for j in range(i + 1, len(lst)):
+                vc.assume(Not(lst[i] == lst[j]))
+    old_objs = [mk_segobj(vc, p, "old%d" % i) for i, p in enumerate(olds)]
+    new_objs = [mk_segobj(vc, p, "new%d" % i) for i, p in enumerate(news)]
+    cache = it.instantiate(it.get("tdms_segment.SegmentIndexCache"), [], {})
+    first = vc.call_method(cache, "get_index", old_objs)
+    vc.ensure("first-lookup/no-exception", first.kind == "ret")
+    if first.kind != "ret":
+        return
+    for i, o in enumerate(old_objs):
+        vc.ensure("first-lookup/position-of-object[%d]" % i, it.getitem(first.value, o.path) == i)
+    out = vc.call_method(cache, "get_index", new_objs)
+    vc.ensure("no-exception", out.kind == "ret")
+    if out.kind != "ret":
+        return
+    ix = out.value
+    vc.ensure("index/one-entry-per-object", len(ix) == nb)
+    def lookup(d, key):
+        try:
+            return it.getitem(d, key)
+        except ProgExc:
+            return -1                       # missing key: the obligation below fails, the harness does not crash
+    for i, o in enumerate(new_objs):
+        vc.ensure("index/maps-each-path-to-its-position-in-THIS-list[%d]" % i, lookup(ix, o.path) == i)
+    again = vc.call_method(cache, "get_index", new_objs)
+    vc.ensure("repeat-lookup-returns-the-cached-dictionary", again.kind == "ret" and again.value is ix)
